@@ -278,6 +278,31 @@ def nesting(case):
   return {'evals': min(hi, len(trees)) - lo, 'nontrivial': case['depth'] >= 2, 'outcome': len(trees)}
 
 
+def aborted_deserialize(case):
+  """A deserialisation that fails on a truncated / corrupt blob must not influence later calls."""
+  from fedjax.core import serialization as ser
+  vals = [{'a': np.arange(5, dtype=np.int32), 'b': [1.5, b'x']}, {'k': np.ones((2, 2), np.float32)}, [np.float16(2.5), 'text'],
+          {'big': np.arange(40, dtype=np.float64)}]
+  blobs = [ser.msgpack_serialize(v) for v in vals]
+  cut = case['cut']
+  bad = blobs[case['which']][:max(1, int(len(blobs[case['which']]) * cut))]
+  for rnd in range(2):
+    try:
+      ser.msgpack_deserialize(bad)
+    except Exception:  # pylint: disable=broad-except
+      pass
+    else:
+      if cut < 1:
+        raise Violation('a truncated blob was deserialised without an error', 'an exception', None)
+    try:
+      ser.msgpack_deserialize(blobs[case['which']] + b'\x01\x02')
+    except Exception:  # pylint: disable=broad-except
+      pass
+    for v, b in zip(vals, blobs):
+      same_leaf(v, ser.msgpack_deserialize(b), path='after an aborted call')
+  return {'evals': 2 * len(vals), 'nontrivial': True, 'outcome': [case['which'], cut]}
+
+
 def sqlite_rt(case):
   """SQLiteFederatedDataBuilder -> SQLiteFederatedData: ids, sizes, examples identical."""
   from fedjax.core import sqlite_federated_data as sq
@@ -301,6 +326,15 @@ def sqlite_rt(case):
             dict(zip(ids, sizes)), dict(fd.client_sizes()))
     for cid, ds in fd.clients():
       same_leaf(dict(table[cid]), dict(ds.raw_examples), path=repr(cid))
+    # overlapping reads on one dataset object
+    seen = []
+    for cid in fd.client_ids():
+      same_leaf(dict(table[cid]), dict(fd.get_client(cid).raw_examples), path='get inside client_ids() ' + repr(cid))
+      seen.append(cid)
+    require(sorted(seen) == sorted(ids), 'iterating client_ids() while calling get_client() lost clients', sorted(ids), seen)
+    pairs = list(zip(fd.client_ids(), fd.client_sizes()))
+    require(len(pairs) == len(ids) and all(a == b[0] for a, b in pairs), 'client_ids() zipped with client_sizes() disagree',
+            None, pairs)
     for cid in ids:
       same_leaf(dict(table[cid]), dict(fd.get_client(cid).raw_examples), path='get ' + repr(cid))
       require(fd.client_size(cid) == sizes[ids.index(cid)], 'client_size differs')
@@ -406,7 +440,7 @@ def _plain(state):
   return {k: (np.asarray(v) if hasattr(v, 'dtype') and not isinstance(v, np.generic) else v) for k, v in state.items()}
 
 
-SUBS = {'checkpoint_api': checkpoint_api, 'arrays': arrays, 'bytes_arrays': bytes_arrays, 'scalars': scalars, 'unsupported': unsupported,
+SUBS = {'aborted_deserialize': aborted_deserialize, 'checkpoint_api': checkpoint_api, 'arrays': arrays, 'bytes_arrays': bytes_arrays, 'scalars': scalars, 'unsupported': unsupported,
         'nesting': nesting, 'sqlite_rt': sqlite_rt, 'state_rt': state_rt}
 TIMEOUTS = {k: 120 for k in SUBS}
 
@@ -423,7 +457,7 @@ def plan(ctx):
   shapes = SHAPES + ([(2, 2, 2, 2, 2), (5,)] if th else [])
   ctx.run('arrays', [{'dtype': d, 'shape': list(s), 'layout': l, 'swapped': sw, 'seed': ctx.seed}
                      for d in DTYPES for s in shapes for l in LAYOUTS for sw in (False, True)
-                     if not (sw and d in ('bfloat16', 'bool', 'int8', 'uint8'))])
+                     if not (sw and d in ('bfloat16', 'bool', 'int8', 'uint8'))], reverse_pass=True)
   ctx.run('bytes_arrays', [{'shape': list(s), 'fortran': f} for s in [(0,), (1,), (2,), (3,), (2, 2), (0, 2), (1, 2, 1)]
                            + ([(2, 3)] if th else []) for f in (False, True)])
   ctx.run('scalars', [{'name': n} for n in _scalar_pool()])
@@ -437,6 +471,7 @@ def plan(ctx):
                                                                                         'complex64', 'bool', 'uint64'])
                         for l in ('C', 'F', 'strided') for sw in (False, True)
                         if not (sw and d in ('bfloat16', 'bool', 'int8', 'uint8'))])
+  ctx.run('aborted_deserialize', [{'which': w, 'cut': c} for w in range(4) for c in (0.1, 0.5, 0.9)])
   ctx.run('checkpoint_api', [{'keep': k, 'depth': 3 if th else 2} for k in (1, 2, 3)])
   ctx.run('state_rt', [{'kind': 'fedavg', 'opt': o} for o in ('sgd', 'adam', 'mom')] +
           [{'kind': 'plain', 'dtype': d, 'swapped': sw} for d in ('int32', 'float64', 'bfloat16') for sw in (False, True)
